@@ -61,6 +61,11 @@ type Scenario struct {
 	Cap    int                `json:"cap"`
 	CbFail int                `json:"cbfail"`
 	Decs   []fakereg.Decision `json:"decs"`
+	// the registry's continuation: "" = the `last` parameter, else an opaque cursor under this key
+	CursorKey  string `json:"cursorkey"`
+	CursorSalt string `json:"cursorsalt"`
+	// entries the registry holds but does not show (pages can be empty although a link follows)
+	Hidden []string `json:"hidden"`
 	// Repository.Referrers around the two paths (op "wrap"; Kind R)
 	State    string `json:"state"`    // capability before the call: "U" unknown, "S" supported ("" too), "N" unsupported
 	NoAPI    bool   `json:"noapi"`    // the registry has no referrers API (404)
@@ -143,6 +148,8 @@ var rawLinks = []string{
 	` </v2/x?last=a>; rel="next"`,      // leading blank: missing '<'
 	`<%zz>; rel="next"`,                // net/url rejects the target
 	`<http://reg.test/%zz?last=a>`,     // net/url rejects the target
+	``,                                 // no Link header although items may remain: the listing ends
+	``,
 }
 
 // rawTarget returns the text between '<' and '>' of a malformed-stream link that has one.
@@ -204,6 +211,9 @@ func basePath(sc *Scenario) string {
 func indexDoc(items []fakereg.Item, size int) []byte {
 	ms := make([]ocispec.Descriptor, len(items))
 	for i, it := range items {
+		if it.Name == "" { // an empty descriptor (a "bad entry" of a referrers index)
+			continue
+		}
 		ms[i] = ocispec.Descriptor{MediaType: ocispec.MediaTypeImageManifest, Digest: digest.Digest(it.Name), Size: 2, ArtifactType: it.ArtifactType}
 	}
 	idx := ocispec.Index{MediaType: ocispec.MediaTypeImageIndex, Manifests: ms}
@@ -220,6 +230,8 @@ var finalState int // capability state after the last execute of a referrers sce
 func execute(sc *Scenario) (reg *fakereg.Registry, pages [][]fakereg.Item, logAtFail int, err error) {
 	reg = fakereg.New(host)
 	reg.NoReferrersAPI = sc.NoAPI
+	reg.CursorKey, reg.CursorSalt = sc.CursorKey, sc.CursorSalt
+	reg.Hidden = hiddenSet(sc.Hidden)
 	if sc.Index {
 		reg.Manifests[sc.Repo+"@"+subject.Algorithm().String()+"-"+subject.Encoded()] = fakereg.Manifest{MediaType: ocispec.MediaTypeImageIndex, Content: indexDoc(sc.Items, 0)}
 	}
@@ -294,6 +306,39 @@ func execute(sc *Scenario) (reg *fakereg.Registry, pages [][]fakereg.Item, logAt
 	return
 }
 
+func hiddenSet(names []string) map[string]bool {
+	m := map[string]bool{}
+	for _, n := range names {
+		m[n] = true
+	}
+	return m
+}
+
+func visible(items []fakereg.Item, hidden []string) []fakereg.Item {
+	if len(hidden) == 0 {
+		return items
+	}
+	h := hiddenSet(hidden)
+	var out []fakereg.Item
+	for _, it := range items {
+		if !h[it.Name] {
+			out = append(out, it)
+		}
+	}
+	return out
+}
+
+func namesTok(ss []string) string {
+	if len(ss) == 0 {
+		return "_"
+	}
+	p := make([]string, len(ss))
+	for i, s := range ss {
+		p[i] = common.Hex(s)
+	}
+	return strings.Join(p, ",")
+}
+
 func flat(pages [][]fakereg.Item) []fakereg.Item {
 	var out []fakereg.Item
 	for _, p := range pages {
@@ -329,7 +374,11 @@ func showNames(its []fakereg.Item) string {
 // responses as input of the client model (13 tokens each, see ml/c15_main.ml).
 func clientTokens(log []*fakereg.Exchange) (reqs, resp []string) {
 	for _, x := range log {
-		reqs = append(reqs, common.Hex(x.Path)+"?"+obsQuery(valuesKVs(x.Query)))
+		sent := x.SentPath
+		if sent == "" {
+			sent = x.Path
+		}
+		reqs = append(reqs, common.Hex(sent)+"?"+obsQuery(valuesKVs(x.Query)))
 		nu, js := "0", "0"
 		if x.Status == 404 && x.Dec.ErrorCode == "NAME_UNKNOWN" {
 			nu = "1"
@@ -340,7 +389,7 @@ func clientTokens(log []*fakereg.Exchange) (reqs, resp []string) {
 		tt, tp, tq := "!", "_", "_"
 		switch {
 		case x.HasLink && x.Dec.PreFirst != 0: // the first link-value is the rel="first" link
-			tt, tp, tq = common.Hex(x.PreText), common.Hex(x.TPath), kvsTok(x.PreQuery)
+			tt, tp, tq = common.Hex(x.PreText), common.Hex(x.Path), kvsTok(x.PreQuery)
 		case x.HasLink:
 			tt, tp, tq = common.Hex(x.Text), common.Hex(x.TPath), kvsTok(x.TQuery)
 		default:
@@ -362,9 +411,22 @@ func clientTokens(log []*fakereg.Exchange) (reqs, resp []string) {
 	return
 }
 
-func relFirst(log []*fakereg.Exchange) bool {
-	for _, x := range log {
-		if x.HasLink && x.Dec.PreFirst != 0 {
+// followedRelFirst reports the mechanism of the known finding link-rel-ignored: some request
+// is the target of the rel="first" link-value that preceded the next link in the previous
+// response (instead of the target of the next link).
+func followedRelFirst(log []*fakereg.Exchange, n int) bool {
+	for i, x := range log {
+		if !x.HasLink || x.Dec.PreFirst == 0 || i+1 >= len(log) {
+			continue
+		}
+		want := url.Values{}
+		for _, kv := range x.PreQuery {
+			want.Add(kv.K, kv.V)
+		}
+		if n > 0 {
+			want["n"] = []string{strconv.Itoa(n)}
+		}
+		if log[i+1].SentPath == x.Path && obsQuery(valuesKVs(log[i+1].Query)) == obsQuery(valuesKVs(want)) {
 			return true
 		}
 	}
@@ -377,9 +439,11 @@ func listCase(sc *Scenario) {
 	reg, pages, logAtFail, err := execute(sc)
 	outcome := classify(err)
 	fail := func(sig, msg string) {
-		if relFirst(reg.Log) {
-			// known finding: parseLink takes the first link-value whatever its relation type
-			sig, msg = "link-rel-ignored", "a rel=\"first\" link-value precedes the next link: "+msg
+		// known finding: parseLink takes the first link-value whatever its relation type.  Only the
+		// consequences of that mechanism (a request that IS the rel="first" target: pages re-read,
+		// the fake's request budget exhausted) carry its signature; every other failure keeps its own.
+		if (sig == "exactly-once" || sig == "next-request" || sig == "spurious-error") && followedRelFirst(reg.Log, sc.N) {
+			sig, msg = "link-rel-ignored", "a rel=\"first\" link-value precedes the next link and was followed: "+msg
 		}
 		run.OracleFail(id, sig, sc.Kind+" "+msg, sc)
 	}
@@ -418,12 +482,19 @@ func listCase(sc *Scenario) {
 	} else {
 		expected = fakereg.After(sc.Items, sc.Last)
 	}
+	expected = visible(expected, sc.Hidden)
 	got := flat(pages)
 	// what disturbs the listing, in request order
 	disturbed := -1 // index of the first exchange that cannot be completed normally
 	oversize := -1
+	cut := -1 // index of an answer without Link although items remain: "stop when no next link is given"
 	for i, x := range reg.Log {
-		bad := x.Status != 200 || !x.JSONOK || x.Dec.RawLink != nil || (x.Kind == 'R' && x.CType != ocispec.MediaTypeImageIndex)
+		// a link that is simply missing (RawLink "") is not an error: the listing ends there
+		missing := x.Dec.RawLink != nil && *x.Dec.RawLink == ""
+		bad := x.Status != 200 || !x.JSONOK || (x.Dec.RawLink != nil && !missing) || (x.Kind == 'R' && x.CType != ocispec.MediaTypeImageIndex)
+		if missing && x.More && !bad && disturbed < 0 && cut < 0 {
+			cut = i
+		}
 		if x.Status == 200 && int64(x.DocLen) > effLimit(sc.Limit) {
 			bad = true
 			if oversize < 0 {
@@ -436,6 +507,19 @@ func listCase(sc *Scenario) {
 		// never read more than the limit
 		if x.Status == 200 && int64(x.BytesRead()) > effLimit(sc.Limit) {
 			fail("over-read", fmt.Sprintf("response %d: %d bytes consumed, MaxMetadataBytes %d (effective %d)", i, x.BytesRead(), sc.Limit, effLimit(sc.Limit)))
+		}
+	}
+	if cut >= 0 && (disturbed < 0 || cut < disturbed) {
+		// everything up to and including that page, nothing more, no error
+		k := 0
+		for _, x := range reg.Log[:cut+1] {
+			k += len(filterAT(sc, visible(x.Unfilt, sc.Hidden)))
+		}
+		expected = expected[:k]
+		disturbed = -1
+		run.Count("list_link_missing_midway")
+		if len(reg.Log) != cut+1 {
+			fail("request-without-link", fmt.Sprintf("answer %d had no Link header, %d requests were sent", cut, len(reg.Log)))
 		}
 	}
 	// the requests: first one carries last / n, later ones are the link with n re-set
@@ -455,8 +539,8 @@ func listCase(sc *Scenario) {
 			if sc.Kind == "R" && sc.AT != "" {
 				want["artifactType"] = []string{sc.AT}
 			}
-			if x.Path != basePath(sc) || obsQuery(valuesKVs(x.Query)) != obsQuery(valuesKVs(want)) {
-				fail("first-request", fmt.Sprintf("first request %s?%s, want %s?%s", x.Path, x.Query.Encode(), basePath(sc), want.Encode()))
+			if x.SentPath != basePath(sc) || obsQuery(valuesKVs(x.Query)) != obsQuery(valuesKVs(want)) {
+				fail("first-request", fmt.Sprintf("first request %s?%s, want %s?%s", x.SentPath, x.Query.Encode(), basePath(sc), want.Encode()))
 			}
 			continue
 		}
@@ -472,8 +556,8 @@ func listCase(sc *Scenario) {
 		if wantN != nil {
 			want["n"] = wantN
 		}
-		if x.Path != prev.TPath || obsQuery(valuesKVs(x.Query)) != obsQuery(valuesKVs(want)) {
-			fail("next-request", fmt.Sprintf("request %d is %s?%s, the link said %s?%s (n configured: %d)", i, x.Path, x.Query.Encode(), prev.TPath, want.Encode(), sc.N))
+		if x.SentPath != prev.TPath || obsQuery(valuesKVs(x.Query)) != obsQuery(valuesKVs(want)) {
+			fail("next-request", fmt.Sprintf("request %d is %s?%s, the link said %s?%s (n configured: %d)", i, x.SentPath, x.Query.Encode(), prev.TPath, want.Encode(), sc.N))
 		}
 	}
 	for i, p := range pages {
@@ -530,6 +614,27 @@ func listCase(sc *Scenario) {
 	for _, x := range reg.Log {
 		if x.HasLink {
 			run.Count(fmt.Sprintf("link_variant_%d", x.Dec.Variant%fakereg.NumLinkVariants))
+			if len(x.Dec.RawPairs) > 0 {
+				run.Count("link_raw_pairs")
+			}
+			if x.TPath != x.Path {
+				run.Count("link_other_path")
+			}
+			if x.SentPath != x.Path {
+				run.Count("link_after_redirect")
+			}
+			if x.Dec.PreFirst != 0 {
+				run.Count("link_rel_first_stream")
+			}
+			if len(x.Links) > 1 || len(x.Dec.PostSame) > 0 {
+				run.Count("link_further_values")
+			}
+		}
+		if x.Status == 200 && x.JSONOK && x.HasLink && len(x.Page) == 0 && x.Kind != 'R' {
+			run.Count("list_empty_page_with_link")
+		}
+		if x.Status == 200 && x.JSONOK && (x.Dec.LeadWS > 0 || x.Dec.TrailDoc || (x.Dec.NullBody != 0 && len(x.Page) == 0)) {
+			run.Count("json_shape_variant")
 		}
 	}
 	if len(reg.Log) > 1 || outcome != "Done" {
@@ -548,32 +653,39 @@ func listCase(sc *Scenario) {
 		if i > 2 && !run.Rand.Chance(1, 3) {
 			continue
 		}
-		regPageCase(sc.Kind, sc.Items, reg.Cap, x)
+		regPageCase(sc.Kind, sc.Items, reg.Cap, sc.CursorKey, sc.CursorSalt, sc.Hidden, x)
 	}
 }
 
 // RegPage is the replay form of one registry-model case (one request to the fake registry).
 type RegPage struct {
-	Op    string           `json:"op"` // "regpage"
-	Kind  string           `json:"kind"`
-	Items []fakereg.Item   `json:"items"`
-	Cap   int              `json:"cap"`
-	Path  string           `json:"path"`
-	Query []fakereg.KV     `json:"query"`
-	Dec   fakereg.Decision `json:"dec"`
+	Op         string           `json:"op"` // "regpage"
+	Kind       string           `json:"kind"`
+	Items      []fakereg.Item   `json:"items"`
+	Cap        int              `json:"cap"`
+	Path       string           `json:"path"`
+	Query      []fakereg.KV     `json:"query"`
+	Dec        fakereg.Decision `json:"dec"`
+	CursorKey  string           `json:"cursorkey"`
+	CursorSalt string           `json:"cursorsalt"`
+	Hidden     []string         `json:"hidden"`
 }
 
 // regPageCase compares one answer of the fake registry with the registry model (S line) and
 // judges it against the conditions of a legal registry, independently of the model.
-func regPageCase(kind string, items []fakereg.Item, cap int, x *fakereg.Exchange) {
+func regPageCase(kind string, items []fakereg.Item, cap int, ck, salt string, hidden []string, x *fakereg.Exchange) {
 	sid := run.NewID()
 	d := x.Dec
 	flt := "0"
 	if d.Filter {
 		flt = "1"
 	}
-	in := fmt.Sprintf("S %s %s %d %s %s %d %s %s %s %s", kind, itemsTok(items), cap, common.Hex(x.Path), kvsTok(valuesKVs(x.Query)),
-		d.M, kvsTok(d.Extra), flt, common.Hex(d.FHdr), common.Hex(d.FAnn))
+	extra := append([]fakereg.KV(nil), d.Extra...)
+	for _, raw := range d.RawPairs {
+		extra = append(extra, valuesKVs(fakereg.ParseQueryLenient(raw))...)
+	}
+	in := fmt.Sprintf("S %s %s %d %s %s %d %s %s %s %s %s %s %s", kind, itemsTok(items), cap, common.Hex(x.Path), kvsTok(valuesKVs(x.Query)),
+		d.M, kvsTok(extra), flt, common.Hex(d.FHdr), common.Hex(d.FAnn), common.Hex(ck), common.Hex(salt), namesTok(hidden))
 	more, lq := 0, "_"
 	if x.More {
 		more, lq = 1, obsQuery(canonKVs(x.TQuery))
@@ -582,11 +694,20 @@ func regPageCase(kind string, items []fakereg.Item, cap int, x *fakereg.Exchange
 	run.Count("registry_page")
 
 	// legality of the answer (ground truth: the item list and the request)
-	rep := RegPage{Op: "regpage", Kind: kind, Items: items, Cap: cap, Path: x.Path, Query: valuesKVs(x.Query), Dec: fakereg.Decision{M: d.M, Extra: d.Extra, Filter: d.Filter, FHdr: d.FHdr, FAnn: d.FAnn}}
+	rep := RegPage{Op: "regpage", Kind: kind, Items: items, Cap: cap, Path: x.Path, Query: valuesKVs(x.Query), CursorKey: ck, CursorSalt: salt, Hidden: hidden,
+		Dec: fakereg.Decision{M: d.M, Extra: extra, Filter: d.Filter, FHdr: d.FHdr, FAnn: d.FAnn}}
 	bad := func(msg string) {
 		run.OracleFail(sid, "fake-registry-illegal", fmt.Sprintf("fake registry, request %s?%s: %s", x.Path, x.Query.Encode(), msg), rep)
 	}
-	rest := fakereg.After(items, x.Query.Get("last"))
+	cur := x.Query.Get("last")
+	key := "last"
+	if ck != "" && ck != "last" {
+		key = ck
+		if x.Query.Has(ck) {
+			cur = strings.TrimPrefix(x.Query.Get(ck), salt)
+		}
+	}
+	rest := fakereg.After(items, cur)
 	lim := cap
 	if n, err := strconv.Atoi(x.Query.Get("n")); err == nil && n > 0 && n < lim {
 		lim = n
@@ -598,20 +719,33 @@ func regPageCase(kind string, items []fakereg.Item, cap int, x *fakereg.Exchange
 	case len(u) > lim:
 		bad(fmt.Sprintf("page of %d items exceeds min(cap, n) = %d", len(u), lim))
 	case len(u) == 0 && len(rest) > 0:
-		bad("empty page although items remain")
+		bad("empty page window although items remain")
 	case x.More != (len(u) < len(rest)):
 		bad(fmt.Sprintf("link present = %v, items remaining = %d", x.More, len(rest)-len(u)))
 	}
 	if x.More {
-		last := ""
+		last, seen := "", false
 		for _, kv := range x.TQuery {
-			if kv.K == "last" && last == "" {
-				last = kv.V
+			if kv.K == key && !seen {
+				last, seen = kv.V, true
+				if key != "last" {
+					last = strings.TrimPrefix(last, salt)
+				}
 			}
 		}
 		if len(u) == 0 || last != u[len(u)-1].Name {
 			bad(fmt.Sprintf("link cursor %q is not the last item of the page %s", last, showNames(u)))
 		}
+	}
+	if h := hiddenSet(hidden); len(h) > 0 {
+		for _, it := range x.Page {
+			if h[it.Name] {
+				bad("a hidden entry is shown: " + showNames(x.Page))
+			}
+		}
+	}
+	if sub := visible(u, hidden); !(kind == "R" && x.Query.Get("artifactType") != "") && !sameItems(x.Page, sub) {
+		bad(fmt.Sprintf("page %s is not the shown part %s of its window", showNames(x.Page), showNames(sub)))
 	}
 	at := x.Query.Get("artifactType")
 	for _, it := range x.Page {
@@ -628,17 +762,20 @@ func regPageReplay(rp *RegPage) {
 		reg.Cap = 1
 	}
 	reg.Decide = func(*fakereg.Exchange) fakereg.Decision { return rp.Dec }
+	reg.CursorKey, reg.CursorSalt = rp.CursorKey, rp.CursorSalt
+	reg.Hidden = hiddenSet(rp.Hidden)
 	switch rp.Kind {
 	case "K":
 		reg.Repos = rp.Items
 	case "T":
-		reg.Tags[strings.TrimSuffix(strings.TrimPrefix(rp.Path, "/v2/"), "/tags/list")] = rp.Items
+		reg.Tags[strings.TrimSuffix(strings.TrimPrefix(strings.TrimSuffix(rp.Path, "/~p"), "/v2/"), "/tags/list")] = rp.Items
 	default:
-		i := strings.LastIndex(rp.Path, "/referrers/")
+		pth := strings.TrimSuffix(rp.Path, "/~p")
+		i := strings.LastIndex(pth, "/referrers/")
 		if i < 0 {
 			return
 		}
-		reg.Referrers[rp.Path[len("/v2/"):i]+"@"+rp.Path[i+len("/referrers/"):]] = rp.Items
+		reg.Referrers[pth[len("/v2/"):i]+"@"+pth[i+len("/referrers/"):]] = rp.Items
 	}
 	q := url.Values{}
 	for _, kv := range rp.Query {
@@ -651,7 +788,7 @@ func regPageReplay(rp *RegPage) {
 	}
 	resp.Body.Close()
 	if reg.Log[0].Status == 200 {
-		regPageCase(rp.Kind, rp.Items, reg.Cap, reg.Log[0])
+		regPageCase(rp.Kind, rp.Items, reg.Cap, rp.CursorKey, rp.CursorSalt, rp.Hidden, reg.Log[0])
 	}
 }
 
@@ -773,6 +910,27 @@ func genDecision(r *common.Rand, sc *Scenario) fakereg.Decision {
 	if r.Chance(1, 4) {
 		d.Pad = 1 + r.Intn(4)
 	}
+	// shapes of the JSON document: empty page as null, leading white space, a second document behind
+	if r.Chance(1, 5) {
+		d.NullBody = 1 + r.Intn(2)
+	}
+	if r.Chance(1, 10) {
+		d.LeadWS = 1 + r.Intn(3)
+	}
+	if r.Chance(1, 10) {
+		d.TrailDoc = true
+	}
+	// raw sub-delimiters / malformed escapes in the link query (legal URL text that url.ParseQuery rejects)
+	if r.Chance(1, 8) {
+		d.RawPairs = []string{common.Pick(r, []string{"tok=a;b", "t=%zz", "sig=x;y;z", "k;1=v", "u=100%"})}
+	}
+	// the next page under another path; a redirect hop before the answer
+	if r.Chance(1, 8) {
+		d.AltPath = true
+	}
+	if r.Chance(1, 12) {
+		d.Redirect = true
+	}
 	// further link-values and Link lines after the next link (RFC 8288)
 	if r.Chance(1, 6) {
 		d.PostSame = []string{common.Pick(r, []string{`<http://reg.test/v2/>; rel="first"`, `</other>; rel="prev"`, `<x>`})}
@@ -807,6 +965,23 @@ func genScenario(r *common.Rand, maxItems int) *Scenario {
 		default:
 			sc.Last = genName(r, sc.Kind)
 		}
+	}
+	// entries the registry does not show: page windows of hidden entries are empty pages with a link
+	if len(sc.Items) > 0 && r.Chance(1, 5) {
+		for _, it := range sc.Items {
+			if r.Chance(1, 3) {
+				sc.Hidden = append(sc.Hidden, it.Name)
+			}
+		}
+		if len(sc.Hidden) > 0 {
+			run.Count("hidden_entries")
+		}
+	}
+	// the registry's continuation: mostly `last`, else an opaque cursor (the link carries no `last`)
+	if r.Chance(1, 4) {
+		sc.CursorKey = common.Pick(r, []string{"token", "next", "cursor"})
+		sc.CursorSalt = common.Pick(r, []string{"", "p;", "x:", "a=b;", "~"})
+		run.Count("cursor_opaque")
 	}
 	for i := 0; i < len(sc.Items)+2; i++ {
 		sc.Decs = append(sc.Decs, genDecision(r, sc))
@@ -1121,6 +1296,12 @@ func wrapCase(sc *Scenario) {
 	if sc.State != "U" && state != sc.State {
 		fail("state-changed", fmt.Sprintf("capability was %s, is %s afterwards", sc.State, state))
 	}
+	// never read more than the limit of any metadata answer (API pages and the index of the fallback)
+	for i, x := range reg.Log {
+		if x.Status == 200 && int64(x.BytesRead()) > effLimit(sc.Limit) {
+			fail("over-read", fmt.Sprintf("response %d (%c): %d bytes consumed, MaxMetadataBytes %d (effective %d)", i, x.Kind, x.BytesRead(), sc.Limit, effLimit(sc.Limit)))
+		}
+	}
 	// an error answer that does not mean "no referrers API" is returned, not worked around
 	if sc.State == "U" && !sc.NoAPI && len(api) > 0 {
 		x := api[0]
@@ -1171,6 +1352,9 @@ func genWrap(r *common.Rand) {
 	}
 	if r.Chance(1, 3) {
 		sc.N = 1 + r.Intn(3)
+	}
+	if r.Chance(1, 5) {
+		sc.CursorKey, sc.CursorSalt = common.Pick(r, []string{"token", "next"}), common.Pick(r, []string{"", "p;"})
 	}
 	sc.NoAPI = r.Chance(1, 3)
 	sc.Index = sc.NoAPI || r.Chance(1, 3)
@@ -1275,16 +1459,7 @@ func tagSchemaCase(ts *TagSchema) {
 	id := run.NewID()
 	reg := fakereg.New(host)
 	reg.Decide = func(*fakereg.Exchange) fakereg.Decision { return fakereg.Decision{NoDigest: ts.NoDigest} }
-	ms := make([]ocispec.Descriptor, len(ts.Items))
-	for i, it := range ts.Items {
-		ms[i] = ocispec.Descriptor{MediaType: ocispec.MediaTypeImageManifest, Digest: digest.Digest(it.Name), Size: 2, ArtifactType: it.ArtifactType}
-	}
-	idx := ocispec.Index{MediaType: ocispec.MediaTypeImageIndex, Manifests: ms}
-	idx.SchemaVersion = 2
-	doc, _ := json.Marshal(idx)
-	if ts.Size > len(doc) {
-		doc = append(append(doc[:len(doc)-1:len(doc)-1], bytes.Repeat([]byte{' '}, ts.Size-len(doc))...), '}')
-	}
+	doc := indexDoc(ts.Items, ts.Size)
 	if !ts.Absent {
 		reg.Manifests["repo@"+subject.Algorithm().String()+"-"+subject.Encoded()] = fakereg.Manifest{MediaType: ocispec.MediaTypeImageIndex, Content: doc}
 	}
@@ -1326,9 +1501,15 @@ func tagSchemaCase(ts *TagSchema) {
 	run.Nontrivial(fmt.Sprintf("X%v", *ts))
 	// oracle
 	fail := func(sig, msg string) { run.OracleFail(id, sig, "tag schema: "+msg, ts) }
+	// ground truth: every non-empty entry of the index once (first occurrence), of the requested type
 	var expected []fakereg.Item
 	if !ts.Absent {
+		seen := map[string]bool{}
 		for _, it := range ts.Items {
+			if it.Name == "" || seen[it.Name] {
+				continue
+			}
+			seen[it.Name] = true
 			if ts.AT == "" || it.ArtifactType == ts.AT {
 				expected = append(expected, it)
 			}
@@ -1366,8 +1547,29 @@ func tagSchemaCase(ts *TagSchema) {
 	}
 }
 
+// dirtyIndex repeats entries (also with another artifact type) and inserts empty descriptors.
+func dirtyIndex(r *common.Rand, items []fakereg.Item) []fakereg.Item {
+	out := append([]fakereg.Item(nil), items...)
+	for k := 1 + r.Intn(3); k > 0; k-- {
+		var it fakereg.Item
+		if len(out) > 0 && r.Chance(2, 3) {
+			it = common.Pick(r, out)
+			if r.Chance(1, 3) {
+				it.ArtifactType = common.Pick(r, artifactTypes)
+			}
+		}
+		at := r.Intn(len(out) + 1)
+		out = append(out[:at:at], append([]fakereg.Item{it}, out[at:]...)...)
+	}
+	return out
+}
+
 func genTagSchema(r *common.Rand) {
 	ts := &TagSchema{Items: genItems(r, "R", r.Intn(8)), CbFail: -1, NoDigest: r.Bool(), Absent: r.Chance(1, 10)}
+	if r.Chance(1, 3) {
+		ts.Items = dirtyIndex(r, ts.Items)
+		run.Count("tagschema_dirty_index")
+	}
 	if r.Chance(2, 3) {
 		ts.AT = common.Pick(r, artifactTypes[:3])
 	}
@@ -1442,23 +1644,18 @@ func ociCase(ops []ociOp, last string, reopen bool) {
 		truth[tag] = d.Digest.String()
 		truth[d.Digest.String()] = d.Digest.String()
 	}
-	var lister interface {
+	type tagLister interface {
 		Tags(ctx context.Context, last string, fn func(tags []string) error) error
-	} = st
-	if reopen {
-		st2, err := oci.New(dir)
-		if err != nil {
-			panic(err)
-		}
-		lister = st2
 	}
-	var got []string
-	calls := 0
-	err = lister.Tags(ctx, last, func(tags []string) error {
-		calls++
-		got = append(got, tags...)
-		return nil
-	})
+	list := func(l tagLister) (got []string, calls int, err error) {
+		err = l.Tags(ctx, last, func(tags []string) error {
+			calls++
+			got = append(got, tags...)
+			return nil
+		})
+		return
+	}
+	got, calls, err := list(st)
 	// ground truth
 	var want, ents []string
 	keys := make([]string, 0, len(truth))
@@ -1487,26 +1684,45 @@ func ociCase(ops []ociOp, last string, reopen bool) {
 	if len(ents) > 0 {
 		e = strings.Join(ents, ",")
 	}
-	if !reopen { // a digest-named tag of another blob does not survive a reload unchanged; the model speaks of the resolver map
-		run.Case(id, "O "+e+" "+common.Hex(last), tok(got))
-	}
+	run.Case(id, "O "+e+" "+common.Hex(last), tok(got))
 	run.Count("oci_tags")
-	if err != nil || calls != 1 {
-		run.OracleFail(id, "oci-tags-call", fmt.Sprintf("Tags(last=%q): %d callbacks, err %v", last, calls, err), rep)
-	} else if !sort.StringsAreSorted(got) {
-		run.OracleFail(id, "oci-tags-sorted", fmt.Sprintf("Tags(last=%q) = %q", last, got), rep)
-	} else if reopen && strings.Join(noDigestRefs(got), "\x00") != strings.Join(noDigestRefs(want), "\x00") {
-		// a reference that is the digest string of ANOTHER blob is a caller inconsistency that a
-		// reload does not preserve (not a listing matter): such references are left out here
-		run.OracleFail(id, "oci-tags-set", fmt.Sprintf("reopened: Tags(last=%q) = %q, want %q", last, got, want), rep)
-	} else if !reopen && strings.Join(got, "\x00") != strings.Join(want, "\x00") {
-		run.OracleFail(id, "oci-tags-set", fmt.Sprintf("Tags(last=%q) = %q, want %q", last, got, want), rep)
-	} else if reopen {
+	judge := func(label string, got []string, calls int, err error, reloaded bool) {
+		switch {
+		case err != nil || calls != 1:
+			run.OracleFail(id, "oci-tags-call", fmt.Sprintf("%s: Tags(last=%q): %d callbacks, err %v", label, last, calls, err), rep)
+		case !sort.StringsAreSorted(got):
+			run.OracleFail(id, "oci-tags-sorted", fmt.Sprintf("%s: Tags(last=%q) = %q", label, last, got), rep)
+		case reloaded && strings.Join(noDigestRefs(got), "\x00") != strings.Join(noDigestRefs(want), "\x00"):
+			// a reference that is the digest string of ANOTHER blob is a caller inconsistency that a
+			// reload does not preserve (not a listing matter): such references are left out here
+			run.OracleFail(id, "oci-tags-set", fmt.Sprintf("%s: Tags(last=%q) = %q, want %q", label, last, got, want), rep)
+		case !reloaded && strings.Join(got, "\x00") != strings.Join(want, "\x00"):
+			run.OracleFail(id, "oci-tags-set", fmt.Sprintf("%s: Tags(last=%q) = %q, want %q", label, last, got, want), rep)
+		}
 		for _, g := range got {
 			if last != "" && g <= last {
-				run.OracleFail(id, "oci-tags-last", fmt.Sprintf("Tags(last=%q) = %q", last, got), rep)
+				run.OracleFail(id, "oci-tags-last", fmt.Sprintf("%s: Tags(last=%q) = %q", label, last, got), rep)
+				break
 			}
 		}
+	}
+	judge("Store", got, calls, err, false)
+	// the read-only store over the same layout (ReadOnlyStore.Tags), and a re-opened Store
+	ro, rerr := oci.NewFromFS(ctx, os.DirFS(dir))
+	if rerr != nil {
+		panic(rerr)
+	}
+	g2, c2, e2 := list(ro)
+	judge("ReadOnlyStore", g2, c2, e2, true)
+	run.Count("oci_tags_readonly")
+	if reopen {
+		st2, err := oci.New(dir)
+		if err != nil {
+			panic(err)
+		}
+		g3, c3, e3 := list(st2)
+		judge("reopened Store", g3, c3, e3, true)
+		run.Count("oci_tags_reopened")
 	}
 	if len(want) > 1 {
 		run.Nontrivial("O" + e + "|" + last)
@@ -1552,7 +1768,7 @@ func replay(cases []map[string]string) {
 			raw := map[string]json.RawMessage{}
 			for k, v := range c {
 				switch k {
-				case "op", "kind", "repo", "last", "at", "state":
+				case "op", "kind", "repo", "last", "at", "state", "cursorkey", "cursorsalt":
 					b, _ := json.Marshal(v)
 					raw[k] = b
 				default:
@@ -1589,7 +1805,7 @@ func replay(cases []map[string]string) {
 			raw := map[string]json.RawMessage{}
 			for k, v := range c {
 				switch k {
-				case "op", "kind", "path":
+				case "op", "kind", "path", "cursorkey", "cursorsalt":
 					b, _ := json.Marshal(v)
 					raw[k] = b
 				default:
@@ -1606,7 +1822,7 @@ func replay(cases []map[string]string) {
 			raw := map[string]json.RawMessage{}
 			for k, v := range c {
 				switch k {
-				case "op", "kind", "repo", "last", "at", "state":
+				case "op", "kind", "repo", "last", "at", "state", "cursorkey", "cursorsalt":
 					b, _ := json.Marshal(v)
 					raw[k] = b
 				default:
@@ -1736,5 +1952,41 @@ func main() {
 	// content/oci
 	for i := 0; i < run.Scale(150, 4000); i++ {
 		genOci(r)
+	}
+	coverageFloors()
+}
+
+// coverageFloors: a generated run in which one of the input streams is (nearly) empty must not pass
+// silently -- the harness then exits non-zero, which bin/check reports as a broken layer R.
+func coverageFloors() {
+	sum := func(prefix string) int {
+		n := 0
+		for k, v := range run.Dist {
+			if strings.HasPrefix(k, prefix) {
+				n += v
+			}
+		}
+		return n
+	}
+	floors := map[string]int{
+		"cursor_opaque": 100, "hidden_entries": 100, "list_empty_page_with_link": 20, "link_raw_pairs": 50, "link_other_path": 50, "link_after_redirect": 30, "link_further_values": 100, "link_rel_first_stream": 5,
+		"list_link_missing_midway": 5, "json_shape_variant": 100, "registry_page": 1000, "exhaustive": 200,
+		"link_variant_0": 100, "link_variant_1": 100, "link_variant_2": 100, "link_variant_3": 100, "link_variant_4": 100,
+		"list_T_": 1000, "list_K_": 500, "list_R_": 1000, "list_T_ErrCallback": 5, "list_R_ErrDecode": 5, "list_K_ErrLink": 3,
+		"wrap_U_": 300, "wrap_S_": 50, "wrap_N_": 50, "ping_": 100, "tagschema_": 200, "tagschema_dirty_index": 30, "tagschema_ErrSize": 10,
+		"oci_tags": 100, "oci_tags_readonly": 100, "oci_tags_reopened": 10, "body_OK": 10, "body_ERR": 10, "parse_link_": 100,
+		"filter_applied_": 30, "filter_referrers": 30, "limit_size_": 30,
+	}
+	var low []string
+	for k, want := range floors {
+		if got := sum(k); got < want {
+			low = append(low, fmt.Sprintf("%s: %d < %d", k, got, want))
+		}
+	}
+	if len(low) > 0 {
+		sort.Strings(low)
+		run.Finish()
+		fmt.Fprintln(os.Stderr, "C15 harness: input streams below their coverage floor: "+strings.Join(low, "; "))
+		os.Exit(3)
 	}
 }
